@@ -2,18 +2,22 @@
 CFG = dict(
     level="proof",
     design_ref="DESIGN.md §7.1, Appendix E, §8-3",
-    level_text="LAYERED, Layer A proved: Lean 4 theorem C01_agreement_of_rules — for any committee of n=3f+1 with at most f Byzantine members, any trace length and "
-               "any rounds, eight local rules H0–H7 about the events of correct operators (prepare once per round; a commit needs an authentic prepare quorum or a stale "
-               "accepted proposal after a regress; a justified proposal re-proposes the highest prepared value; round-changes reflect the lock; regress and decide need "
-               "an authentic commit quorum) imply that any two reported decisions carry the same value; the rules tolerate the round regression by decided messages. "
-               "Layer B (each rule as an invariant of the executable node model Ssv/Model/Qbft, controller + instance WITHOUT the runner's compaction) is NOT done yet: "
-               "the rules are hypotheses of the theorem. The node model itself is tied to the code by the multi-node differential run (every node of every adversarial "
-               "schedule is diffed against the model). Implementation-side search: agreement oracle over real controllers; on the COMPACTING node it finds two correct "
-               "operators reporting different values (known finding, same cause as C06).",
-    level_note="Partial: Layer B missing (rules H0–H7 are assumed of the node; named in the theorem statement). Trusted: Lean kernel, Mathlib.Data.Finset.Card / Fintype.Card / "
-               "Tactic.Linarith in the Layer-A proof, the extractor, the harness abstraction; crypto abstracted.",
-    technique="Lean 4 proof (abstract trace rules ⇒ agreement) + executable node model diffed against n real controllers under an adversarial scheduler + agreement oracle",
-    lean=["Ssv.Props.C01"],
+    level_text="Lean 4 proof, both layers. Layer B (Ssv/Props/C01LayerB.lean): for the executable multi-node system Ssv/Model/Qbft/SystemB.lean — committee 1..n, "
+               "n = 3f+1, at most f Byzantine members, one (identifier, height), steps start / deliver ANY message whose verified signed parts listing a correct signer "
+               "are backed by an earlier broadcast of that signer (unforgeability; drop, duplication, reordering, selective delivery, equivocation, fabricated "
+               "justifications included) / timeout for any round — every rule H0–H7 is an invariant of the reachable states (C01_rule_H0 … H7, by induction over "
+               "the executable controller + instance model), hence C01_agreement: any two correct operators that report a decision (decided message returned by "
+               "Controller.ProcessMsg, or State.Decided/DecidedValue) report the same value, for all f, start values, schedules, Byzantine behaviours and rounds; "
+               "non-vacuity: a 27-step reachable state with a Byzantine round-1 leader, a round change and two decisions. Layer A (Ssv/Props/C01.lean): the rules imply "
+               "agreement for any finite committee. The node model is tied to the code by the multi-node differential run (every correct node of every adversarial schedule "
+               "of n = 4 and 7 REAL controllers is diffed against the model) and regenerated facts/kernels. Scope of the theorem: light node (no storage reload), NO runner "
+               "compaction, one height per system. Implementation-side search with the agreement oracle also runs WITH the runner's real compaction, where it reproduces two "
+               "correct operators reporting different values (known finding, same cause as C06).",
+    level_note="Trusted: Lean kernel (propext/Classical.choice/Quot.sound), Mathlib.Data.Finset.Card / Fintype.Card / Finset.Max / List.Nodup / Tactic.Linarith in proofs, the "
+               "extractor and kernel translator, the harness abstraction; BLS and SHA-256 abstracted (unforgeability is the step precondition `authentic`; hash = identity on "
+               "value ids). Not covered by the theorem: runner compaction (known finding), full-node reload from storage, interplay of several heights in one controller (C15).",
+    technique="Lean 4 proof (invariant over all reachable states of the executable multi-node model ⇒ rules H0–H7 ⇒ agreement) + node model diffed against n real controllers under an adversarial scheduler + agreement oracle",
+    lean=["Ssv.Props.C01", "Ssv.Props.C01LayerB"],
     engines=[dict(harness="qbft", driver="m_qbft", args=["-mode", "sim"], case_delim="reset",
                   n_quick=14000, n_thorough=200000, thorough_seeds=4, n_search=60000, search_seeds=3)],
     rule="n=4 and n=7 REAL controllers (real BLS) under a seeded adversarial scheduler: in-order / reordered / dropped / duplicated deliveries, bursts, timeouts, up to f "
@@ -22,6 +26,6 @@ CFG = dict(
          "mutations of everything seen), with and without the runner's real compaction; 4 directed scenarios first; every correct operator's exact input sequence and "
          "outputs form a `reset` case that is diffed against the Lean model",
     trusted_base=["harness abstraction + scheduler (harness/cmd/qbft/simsearch.go, directed.go)", "BLS / SHA-256 abstracted"],
-    assumptions=["Layer B: rules H0–H7 hold of the node without compaction (not yet proved)", "light node"],
+    assumptions=["unforgeability of BLS signatures, collision-free hashing", "light node, no runner compaction, one height per system (scope of the theorem)"],
     explanation="KNOWN-FINDING lines: agreement fails on the compacting node (directed scenarios with Byzantine leader + compaction, reproduced on every run).",
 )
